@@ -1,4 +1,18 @@
 import KyberModel.Drive.Sc
+import KyberModel.Drive.Grp
+import KyberModel.Drive.Share
+import KyberModel.Drive.Pvss
+import KyberModel.Drive.Dss
+import KyberModel.Drive.Decode
+import KyberModel.Drive.Bls
+import KyberModel.Drive.Pairing
+import KyberModel.Drive.Xof
+import KyberModel.Drive.Enc
+import KyberModel.Drive.Vss
+import KyberModel.Drive.Sigma
+import KyberModel.Drive.Sha
+import KyberModel.Drive.Sig
+import KyberModel.Drive.Dkg
 /-
 `kdriver`: one operation per line on stdin, one result per line on stdout.
 Core-only (no Mathlib) so that it links as a native executable.
@@ -8,6 +22,23 @@ open Kyber.Drive
 def dispatch (line : String) : String :=
   match (line.trimAscii.toString.splitOn " ").filter (· ≠ "") with
   | "sc" :: args => handleSc args
+  | "grp" :: args => handleGrp args
+  | "share" :: args => handleShare args
+  | "pvss" :: args => handlePvss args
+  | "dss" :: args => handleDss args
+  | "dec" :: args => handleDec args
+  | "decsc" :: args => handleDecSc args
+  | "parse" :: args => handleParse args
+  | "c09" :: args => handleC09 args
+  | "c06" :: args => handleC06 args
+  | "xof" :: args => handleXof args
+  | "rnd" :: args => handleRnd args
+  | "enc" :: args => handleEnc args
+  | "vss" :: args => handleVss args
+  | "dkg" :: args => handleDkg args
+  | "sigma" :: args => handleSigma args
+  | "sha" :: args => handleSha args
+  | "sig" :: args => handleSig args
   | _ => badOp
 
 partial def loop (hin hout : IO.FS.Stream) : IO Unit := do
